@@ -105,6 +105,10 @@ class Ops:
         b = to_frac(b) if isinstance(b, float) else b
         # None arithmetic
         if a is None or b is None:
+            if self.ctx.spec_mode:
+                # inside a specification the term is guarded by the author (implies(x is not None, ...)); an
+                # unguarded use proves nothing because the value is arbitrary
+                return SV(fresh('undef', R))
             raise self.ctx.pyexc('TypeError')
         if isinstance(a, Opt):
             a = self.ctx.unwrap(a)
@@ -276,6 +280,8 @@ class Ops:
         if isinstance(b, Opt):
             b = self.ctx.unwrap(b)
         if a is None or b is None:
+            if self.ctx.spec_mode:
+                return SV(fresh('undef', z3.BoolSort()))
             raise self.ctx.pyexc('TypeError')
         if isinstance(a, Inf) or isinstance(b, Inf):
             return self.inf_cmp(op, a, b)
